@@ -495,7 +495,7 @@ def judge_case(case, ri, dens):
             cls, datum, detail = v
             if cls == "missing" and st.get("text") and ci.after_terminator(st["text"]):
                 cls = "after-terminator"
-            sig = ci.signature(cls, datum, st["api"], case["ops"][:j])
+            sig = ci.signature(cls, datum, st["api"], case["ops"][:j], error=detail if cls == "write-raised" else None)
             return j, sig, f"{cls} {datum}: {detail}"
     return None
 
@@ -577,8 +577,8 @@ def compare_case(case, ri, dens, rm, nsteps):
             if "text" in st:
                 den = dens[k]
                 k += 1
-            if st["out"] == "IllegalState":
-                return None  # validate() of an incomplete object: not modelled, the history ends here
+            if st["out"] == "IllegalState" or (st["out"] == "ParticleTypeNotInProblem" and st["api"].get("imp_outside_mode")):
+                return None  # validate() of an incomplete object / importances outside MODE: not modelled, the history ends here
             if st["out"] != "ok":
                 want = "ValueError" if st["out"] == "ValueError:fill-complex" else st["out"]
                 if sm.get("error") != want:
